@@ -13,6 +13,7 @@
 #undef private
 #endif
 
+#include "../common/iterok.h"
 #include "../common/runner.h"
 #include "../common/tracked.h"
 
@@ -77,6 +78,7 @@ std::string observe(RB &rb) {
         --p;
         itok = itok && (p == q);
     }
+    itok = itok && hr::iter_algebra_ok(rb) && hr::iter_algebra_ok(crb);
     s += ",\"itok\":" + std::string(itok ? "true" : "false");
 #ifdef VS_PROJECT
     s += ",\"pos\":" + std::to_string((long) rb.m_pos);
